@@ -268,6 +268,8 @@ pub struct FrontendCtx<'a, R: FileManager> {
     resolving_addresses: Vec<ModuleItemAddress>,
     // nesting of typeof_expr evaluations
     typeof_depth: usize,
+    // named types whose definition is being looked into by a helper that follows references
+    inspecting_refs: Vec<RuntypeUUID>,
     jsdoc_cache_by_file: BTreeMap<BffFileName, JsdocFileCache>,
 }
 
@@ -1107,6 +1109,7 @@ impl<'a, R: FileManager> FrontendCtx<'a, R> {
             parser_file,
             settings,
             errors: vec![],
+            inspecting_refs: vec![],
             partial_validators: BTreeMap::new(),
             counter: 0,
 
@@ -1256,6 +1259,26 @@ impl<'a, R: FileManager> FrontendCtx<'a, R> {
 
         Ok(Runtype::any_of(values))
     }
+    // The definition a reference stands for, for a helper that looks inside it. `None` when the name has no
+    // definition yet or is already being looked into further up (`type A = B; type B = A` has nothing to look into);
+    // every `Some` must be paired with `leave_ref`.
+    fn enter_ref(&mut self, r: &RuntypeUUID) -> Option<Runtype> {
+        if self.inspecting_refs.contains(r) {
+            return None;
+        }
+        let found = self
+            .partial_validators
+            .get(r)
+            .and_then(|it| it.as_ref())
+            .cloned();
+        if found.is_some() {
+            self.inspecting_refs.push(r.clone());
+        }
+        found
+    }
+    fn leave_ref(&mut self) {
+        self.inspecting_refs.pop();
+    }
     fn extract_object_from_runtype(
         &mut self,
         obj: &Runtype,
@@ -1269,20 +1292,17 @@ impl<'a, R: FileManager> FrontendCtx<'a, R> {
                 true => Ok(vs.clone()),
                 false => self.error(anchor, DiagnosticInfoMessage::RestFoundOnExtractObject),
             },
-            RuntypeKind::Ref(r) => {
-                let map = self
-                    .partial_validators
-                    .get(r)
-                    .and_then(|it| it.as_ref())
-                    .cloned();
-                match map {
-                    Some(schema) => self.extract_object_from_runtype(&schema, anchor),
-                    None => self.error(
-                        anchor,
-                        DiagnosticInfoMessage::ShouldHaveObjectAsTypeArgument,
-                    ),
+            RuntypeKind::Ref(r) => match self.enter_ref(r) {
+                Some(schema) => {
+                    let out = self.extract_object_from_runtype(&schema, anchor);
+                    self.leave_ref();
+                    out
                 }
-            }
+                None => self.error(
+                    anchor,
+                    DiagnosticInfoMessage::ShouldHaveObjectAsTypeArgument,
+                ),
+            },
             RuntypeKind::AllOf(vs) => {
                 let mut acc = BTreeMap::new();
 
@@ -1429,20 +1449,17 @@ impl<'a, R: FileManager> FrontendCtx<'a, R> {
                     indexed_properties: new_indexed,
                 }))
             }
-            RuntypeKind::Ref(r) => {
-                let map = self
-                    .partial_validators
-                    .get(r)
-                    .and_then(|it| it.as_ref())
-                    .cloned();
-                match map {
-                    Some(schema) => self.convert_partial(&schema, anchor),
-                    None => self.error(
-                        anchor,
-                        DiagnosticInfoMessage::ShouldHaveObjectAsTypeArgument,
-                    ),
+            RuntypeKind::Ref(r) => match self.enter_ref(r) {
+                Some(schema) => {
+                    let out = self.convert_partial(&schema, anchor);
+                    self.leave_ref();
+                    out
                 }
-            }
+                None => self.error(
+                    anchor,
+                    DiagnosticInfoMessage::ShouldHaveObjectAsTypeArgument,
+                ),
+            },
             _ => {
                 let extracted = self.extract_object_from_runtype(obj, anchor)?;
                 let new_vs = extracted
@@ -1995,11 +2012,10 @@ impl<'a, R: FileManager> FrontendCtx<'a, R> {
                 Ok((first.clone(), rest.clone()))
             }
             RuntypeKind::Ref(r) => {
-                let v = self.partial_validators.get(r);
-
-                let v = v.and_then(|it| it.clone());
-                if let Some(v) = v {
-                    self.get_string_format_base_formats(&v, anchor)
+                if let Some(v) = self.enter_ref(r) {
+                    let out = self.get_string_format_base_formats(&v, anchor);
+                    self.leave_ref();
+                    out
                 } else {
                     self.error(
                         anchor,
@@ -2062,11 +2078,10 @@ impl<'a, R: FileManager> FrontendCtx<'a, R> {
                 Ok((first.clone(), rest.clone()))
             }
             RuntypeKind::Ref(r) => {
-                let v = self.partial_validators.get(r);
-
-                let v = v.and_then(|it| it.clone());
-                if let Some(v) = v {
-                    self.get_number_format_base_formats(&v, anchor)
+                if let Some(v) = self.enter_ref(r) {
+                    let out = self.get_number_format_base_formats(&v, anchor);
+                    self.leave_ref();
+                    out
                 } else {
                     self.error(
                         anchor,
@@ -2246,13 +2261,12 @@ impl<'a, R: FileManager> FrontendCtx<'a, R> {
         match arr.kind {
             RuntypeKind::Array(items) => Ok(*items),
             RuntypeKind::Ref(n) => {
-                let map = self
-                    .partial_validators
-                    .get(&n)
-                    .and_then(|it| it.as_ref())
-                    .cloned();
-                match map {
-                    Some(schema) => self.extract_array_value(schema, span, file.clone()),
+                match self.enter_ref(&n) {
+                    Some(schema) => {
+                        let out = self.extract_array_value(schema, span, file.clone());
+                        self.leave_ref();
+                        out
+                    }
                     _ => self.error(&anchor, DiagnosticInfoMessage::ExpectedArray),
                 }
             }
@@ -2280,13 +2294,12 @@ impl<'a, R: FileManager> FrontendCtx<'a, R> {
                 Ok(prefix_items)
             }
             RuntypeKind::Ref(n) => {
-                let map = self
-                    .partial_validators
-                    .get(&n)
-                    .and_then(|it| it.as_ref())
-                    .cloned();
-                match map {
-                    Some(schema) => self.extract_tuple_value(schema, span, file.clone()),
+                match self.enter_ref(&n) {
+                    Some(schema) => {
+                        let out = self.extract_tuple_value(schema, span, file.clone());
+                        self.leave_ref();
+                        out
+                    }
                     _ => self.error(&anchor, DiagnosticInfoMessage::ExpectedTuple),
                 }
             }
@@ -3077,10 +3090,12 @@ impl<'a, R: FileManager> FrontendCtx<'a, R> {
                 Ok(TplLitTypeItem::one_of(acc))
             }
             RuntypeKind::Ref(name) => {
-                let v = self.partial_validators.get(name);
-                let v = v.and_then(|it| it.clone());
-                match v {
-                    Some(v) => self.runtype_to_tpl_lit(span, &v, file_name.clone()),
+                match self.enter_ref(name) {
+                    Some(v) => {
+                        let out = self.runtype_to_tpl_lit(span, &v, file_name.clone());
+                        self.leave_ref();
+                        out
+                    }
                     None => self.error(&anchor, DiagnosticInfoMessage::CannotResolveRefToTplLit),
                 }
             }
@@ -3271,11 +3286,10 @@ impl<'a, R: FileManager> FrontendCtx<'a, R> {
         // try to resolve syntatically
         match (&obj.kind, index) {
             (RuntypeKind::Ref(r), _) => {
-                let v = self.partial_validators.get(r);
-
-                let v = v.and_then(|it| it.clone());
-                if let Some(v) = v {
-                    return self.convert_indexed_access_syntatically(&v, index);
+                if let Some(v) = self.enter_ref(r) {
+                    let out = self.convert_indexed_access_syntatically(&v, index);
+                    self.leave_ref();
+                    return out;
                 }
             }
             (
